@@ -99,7 +99,9 @@ LEVEL_TEXT = ('Lean 4: from one inductive invariant of the protocol model, for e
               'state, in every continuation that issues no further ticket, 5*max_queue_size+24 worker transitions publish every '
               'outstanding ticket or the processor is shut down; worker_terminates_within: once is_shutdown is set and no in-flight '
               'producer / flusher acts any more, 32*(max_queue_size+unpublished tickets)+32 worker transitions end DoBackgroundWork, '
-              'so Shutdown\'s join returns - rank functions, not bounded searches). '
+              'so Shutdown\'s join returns; worker_terminates: the same with no assumption on the environment, 64 more transitions per late '
+              'commit / ticket; reader_flush_served_within (23) and reader_worker_terminates_within (13) for the periodic reader; the '
+              'fan-out over providers and multi-processors (30 theorems) - rank functions, not bounded searches). '
               'Tie: refinement check of real executions under the deterministic scheduler.')
-LEVEL_NOTE = ('Trusted: Lean kernel; scheduler shim (SC); event abstraction; fairness. Partial: that the worker thread is scheduled and its timed wait expires is assumed (wcount counts its transitions); worker termination after Shutdown is proved for a quiet environment (the finitely many producers / flushers already past the is_shutdown test have finished); reader flush completeness holds unless a collection was cancelled by export_timeout (D17 witness).')
+LEVEL_NOTE = ('Trusted: Lean kernel; scheduler shim (SC); event abstraction; fairness. Partial: that the worker thread is scheduled and its timed wait expires is assumed (wcount counts its transitions);  reader flush completeness holds unless a collection was cancelled by export_timeout (D17 witness).')
 DESIGN_REF = 'DESIGN.md section 4, C02; Appendix C'
